@@ -191,6 +191,62 @@ theorem trapz_exact_linear_segment (a b : ℚ) : ∀ (xs : List ℚ) (x0 : ℚ),
     simp only [List.map_cons, trapz, List.getLast_cons_cons] at this ⊢
     rw [this]; ring
 
+/-- `integrate` is linear in the values (same wavelengths, same limits) -/
+theorem integrate_linear (ca cb a b : ℚ) (w v1 v2 : List ℚ) (h1 : w.length = v1.length) (h2 : w.length = v2.length) :
+    integrate ⟨w, List.zipWith (fun x y => ca * x + cb * y) v1 v2⟩ a b
+      = ca * integrate ⟨w, v1⟩ a b + cb * integrate ⟨w, v2⟩ a b := by
+  simp only [integrate, keepMask_zipWith]
+  apply trapz_linear
+  rw [← keepMask_length_eq _ w v1 h1, ← keepMask_length_eq _ w v2 h2]
+
+/-- integration is additive over adjacent intervals that meet at a sample point: for a well-formed spectrum whose grid is
+`w1 ++ m :: w2` (values `v1 ++ y :: v2`), `integrate s a m + integrate s m b = integrate s a b` whenever a ≤ m ≤ b -/
+theorem integrate_additive_at_sample (w1 w2 v1 v2 : List ℚ) (m y a b : ℚ)
+    (hs : StrictInc (w1 ++ m :: w2)) (hl1 : w1.length = v1.length) (hl2 : w2.length = v2.length) (ham : a ≤ m) (hmb : m ≤ b) :
+    integrate ⟨w1 ++ m :: w2, v1 ++ y :: v2⟩ a m + integrate ⟨w1 ++ m :: w2, v1 ++ y :: v2⟩ m b
+      = integrate ⟨w1 ++ m :: w2, v1 ++ y :: v2⟩ a b := by
+  have hsp := List.pairwise_append.mp hs
+  have h1lt : ∀ x ∈ w1, x < m := fun x hx => hsp.2.2 x hx m (by simp)
+  have h2gt : ∀ x ∈ w2, m < x := fun x hx => (List.pairwise_cons.mp hsp.2.1).1 x hx
+  simp only [integrate, List.map_append, List.map_cons]
+  have e1 : ∀ (p : ℚ → Bool) (l : List ℚ), (p m :: w2.map p) = ([p m] ++ w2.map p) := fun _ _ => rfl
+  -- the three masks on the three blocks
+  have kA : ∀ (p : ℚ → Bool) (vv1 : List ℚ) (z : ℚ) (vv2 : List ℚ), w1.length = vv1.length →
+      keepMask (w1.map p ++ p m :: w2.map p) (vv1 ++ z :: vv2)
+        = keepMask (w1.map p) vv1 ++ (if p m then [z] else []) ++ keepMask (w2.map p) vv2 := by
+    intro p vv1 z vv2 hlen
+    rw [keepMask_append _ _ _ _ (by simpa using hlen)]
+    cases hp : p m <;> simp [keepMask, hp]
+  rw [kA _ w1 m w2 rfl, kA _ v1 y v2 hl1, kA _ w1 m w2 rfl, kA _ v1 y v2 hl1, kA _ w1 m w2 rfl, kA _ v1 y v2 hl1]
+  have pam : Gen.integrateKeeps a m m = true := by simp [Gen.integrateKeeps, ham]
+  have pmb : Gen.integrateKeeps m b m = true := by simp [Gen.integrateKeeps, hmb]
+  have pab : Gen.integrateKeeps a b m = true := by simp [Gen.integrateKeeps, ham, hmb]
+  simp only [pam, pmb, pab, if_true]
+  -- [a, m]: nothing of w2; [m, b]: nothing of w1
+  have d2 : ∀ vv : List ℚ, vv.length = w2.length → keepMask (w2.map (Gen.integrateKeeps a m)) vv = [] := fun vv hv =>
+    keepMask_all_false w2 vv _ (fun x hx => by have := h2gt x hx; simp [Gen.integrateKeeps]; intro _; linarith) hv
+  have d1 : ∀ vv : List ℚ, vv.length = w1.length → keepMask (w1.map (Gen.integrateKeeps m b)) vv = [] := fun vv hv =>
+    keepMask_all_false w1 vv _ (fun x hx => by have := h1lt x hx; simp [Gen.integrateKeeps]; intro h; linarith) hv
+  rw [d2 w2 rfl, d2 v2 hl2.symm, d1 w1 rfl, d1 v1 hl1.symm]
+  -- on w1 the [a,m] and [a,b] masks agree; on w2 the [m,b] and [a,b] masks agree
+  have c1 : ∀ vv : List ℚ, keepMask (w1.map (Gen.integrateKeeps a m)) vv = keepMask (w1.map (Gen.integrateKeeps a b)) vv := fun vv =>
+    keepMask_congr w1 vv _ _ (fun x hx => by
+      have := h1lt x hx
+      have e1 : decide (x ≤ m) = true := by simp; linarith
+      have e2 : decide (x ≤ b) = true := by simp; linarith
+      simp [Gen.integrateKeeps, e1, e2])
+  have c2 : ∀ vv : List ℚ, keepMask (w2.map (Gen.integrateKeeps m b)) vv = keepMask (w2.map (Gen.integrateKeeps a b)) vv := fun vv =>
+    keepMask_congr w2 vv _ _ (fun x hx => by
+      have := h2gt x hx
+      have e1 : decide (x ≥ m) = true := by simp; linarith
+      have e2 : decide (x ≥ a) = true := by simp; linarith
+      simp [Gen.integrateKeeps, e1, e2])
+  rw [c1, c1, c2, c2]
+  simp only [List.append_nil, List.nil_append, List.append_assoc, List.singleton_append]
+  have hlen : (keepMask (w1.map (Gen.integrateKeeps a b)) w1).length = (keepMask (w1.map (Gen.integrateKeeps a b)) v1).length :=
+    keepMask_length_eq _ _ _ hl1
+  exact (trapz_additive_at_sample m y _ _ _ _ hlen).symm
+
 /-! ### binning -/
 
 theorem binRaw_length_trapz (s : Spectrum) (sym : Bool) (fl fr : ℚ) (c bins : List ℚ)
@@ -255,40 +311,48 @@ theorem bin_preserve_power_sum (s : Spectrum) (sym : Bool) (fl fr : ℚ) (c raw 
 theorem crop_keeps_exactly_closed_range (lo hi : ℚ) (s : Spectrum) (h : WF s) :
     ∀ x, x ∈ (crop lo hi s).1.wave ↔ x ∈ s.wave ∧ lo ≤ x ∧ x ≤ hi := by
   intro x
-  simp only [crop]
-  split
-  · rename_i hh
-    have : s.wave = [] := by simpa using hh
+  rw [crop_eq_stages]
+  cases hw0 : s.wave.head? with
+  | none =>
+    have : s.wave = [] := by simpa using hw0
     simp [this]
-  · rename_i w0 hw0
-    -- stage 1
-    have st1 : ∀ y, y ∈ (if lo > w0 then (⟨keepMask (s.wave.map fun w => !decide (lo > w)) s.wave,
-          keepMask (s.wave.map fun w => !decide (lo > w)) s.value⟩ : Spectrum) else s).wave ↔ y ∈ s.wave ∧ lo ≤ y := by
+  | some w0 =>
+    simp only []
+    -- stage 1 (generated guard `Gen.cropLowGuard`, generated drop test `Gen.cropDropLow`)
+    have st1 : ∀ y, y ∈ (cropStage1 lo w0 s).wave ↔ y ∈ s.wave ∧ lo ≤ y := by
       intro y
-      split
-      · rw [mem_keepMask_map]; simp
-      · rename_i hlo
+      unfold cropStage1
+      by_cases hg : Gen.cropLowGuard lo w0 = true
+      · simp only [hg, if_true]
+        rw [mem_keepMask_map]; simp [Gen.cropDropLow]
+      · have hg' : Gen.cropLowGuard lo w0 = false := by simpa using hg
+        simp only [hg', Bool.false_eq_true, if_false]
+        have hlo : ¬ lo > w0 := by simpa [Gen.cropLowGuard] using hg
         constructor
         · intro hy; exact ⟨hy, le_trans (not_lt.mp hlo) (head_le_of_strictInc _ _ h.1 hw0 y hy)⟩
         · intro hy; exact hy.1
-    have wf1 : WF (if lo > w0 then (⟨keepMask (s.wave.map fun w => !decide (lo > w)) s.wave,
-          keepMask (s.wave.map fun w => !decide (lo > w)) s.value⟩ : Spectrum) else s) := by
+    have wf1 : WF (cropStage1 lo w0 s) := by
+      unfold cropStage1
       split
       · exact wf_keepMask _ _ h
       · exact h
-    generalize (if lo > w0 then (⟨keepMask (s.wave.map fun w => !decide (lo > w)) s.wave,
-          keepMask (s.wave.map fun w => !decide (lo > w)) s.value⟩ : Spectrum) else s) = s1 at st1 wf1 ⊢
-    split
-    · rename_i hl
-      have he : s1.wave = [] := by simpa using hl
+    generalize cropStage1 lo w0 s = s1 at st1 wf1 ⊢
+    unfold cropStage2
+    cases hwl : s1.wave.getLast? with
+    | none =>
+      have he : s1.wave = [] := by simpa using hwl
       have := st1 x
       simp only [he, List.not_mem_nil, false_iff] at this ⊢
-      tauto
-    · rename_i wl hwl
-      split
-      · simp only []
-        rw [mem_keepMask_map, st1]; simp; tauto
-      · rename_i hhi
+      intro hx
+      exact this ⟨hx.1, hx.2.1⟩
+    | some wl =>
+      simp only []
+      by_cases hg : Gen.cropHighGuard hi wl = true
+      · simp only [hg, if_true]
+        rw [mem_keepMask_map, st1]; simp [Gen.cropDropHigh]; tauto
+      · have hg' : Gen.cropHighGuard hi wl = false := by simpa using hg
+        have hhi : ¬ hi < wl := by simpa [Gen.cropHighGuard] using hg
+        simp only [hg', Bool.false_eq_true, if_false]
         rw [st1]
         constructor
         · rintro ⟨h1, h2⟩
@@ -303,26 +367,26 @@ theorem trim_first_to_last_above_tol (tol : ℚ) (s : Spectrum) (m : ℚ)
        (∃ v, s.value[a]? = some v ∧ v / m > tol) ∧ (∀ j, j < a → ∀ v, s.value[j]? = some v → ¬ v / m > tol) ∧
        (∃ v, s.value[b]? = some v ∧ v / m > tol) ∧ (∀ j, b < j → ∀ v, s.value[j]? = some v → ¬ v / m > tol))
     ∨ (trim tol s = (s, some .indexError) ∧ ∀ v ∈ s.value, ¬ v / m > tol) := by
-  have hnp : ¬ m ≤ 0 := not_le.mpr hpos
+  have hnp : Gen.trimRefuses m = false := by simp [Gen.trimRefuses, hpos]
   simp only [trim, hz, hm, hnp, Bool.false_eq_true, if_false]
-  cases hf : firstIdx (fun v : ℚ => decide (v / m > tol)) s.value with
+  cases hf : firstIdx (fun v : ℚ => Gen.trimAbove v m tol) s.value with
   | none =>
     right
     refine ⟨rfl, fun v hv => ?_⟩
-    simpa using firstIdx_none _ _ hf v hv
+    simpa [Gen.trimAbove] using firstIdx_none _ _ hf v hv
   | some a =>
-    cases hl : lastIdx (fun v : ℚ => decide (v / m > tol)) s.value with
+    cases hl : lastIdx (fun v : ℚ => Gen.trimAbove v m tol) s.value with
     | none =>
       right
       refine ⟨rfl, fun v hv => ?_⟩
-      simpa using lastIdx_none _ _ hl v hv
+      simpa [Gen.trimAbove] using lastIdx_none _ _ hl v hv
     | some b =>
       left
       obtain ⟨⟨va, hva, hpa⟩, hlta⟩ := firstIdx_spec _ _ _ hf
       obtain ⟨⟨vb, hvb, hpb⟩, hltb⟩ := lastIdx_spec _ _ _ hl
-      refine ⟨a, b, rfl, ⟨va, hva, by simpa using hpa⟩, ?_, ⟨vb, hvb, by simpa using hpb⟩, ?_⟩
-      · intro j hj v hv; simpa using hlta j hj v hv
-      · intro j hj v hv; simpa using hltb j hj v hv
+      refine ⟨a, b, rfl, ⟨va, hva, by simpa [Gen.trimAbove] using hpa⟩, ?_, ⟨vb, hvb, by simpa [Gen.trimAbove] using hpb⟩, ?_⟩
+      · intro j hj v hv; simpa [Gen.trimAbove] using hlta j hj v hv
+      · intro j hj v hv; simpa [Gen.trimAbove] using hltb j hj v hv
 
 /-- crop does not depend on the absolute size of the wavelength numbers: rescaling the grid and both limits by k > 0
 (a change of unit, metres instead of nanometres) rescales the kept wavelengths, keeps the same samples and raises in the
